@@ -364,9 +364,9 @@ public:
         m_deferred_writes.push_back(FileWrite { std::move(file), destination_path, should_backup, std::move(make_writable), std::move(permission_callback) });
     }
 
-    void deferred_remove(const std::string& path)
+    void deferred_remove(const std::string& path, bool should_backup)
     {
-        m_deferred_removals.push_back(path);
+        m_deferred_removals.push_back(FileRemoval { path, should_backup });
     }
 
     void finalize(Backup& backup)
@@ -385,13 +385,20 @@ public:
         }
 
         // Only once everything has been written is it safe to remove where it was moved from.
-        for (const auto& path : m_deferred_removals) {
+        for (const auto& removal : m_deferred_removals) {
             // Unless something else has since been written there (such as when two files are swapped).
             const bool was_written_to = std::any_of(m_deferred_writes.begin(), m_deferred_writes.end(), [&](const FileWrite& write) {
-                return write.destination_path == path;
+                return write.destination_path == removal.path;
             });
-            if (!was_written_to)
-                remove_file_and_empty_parent_folders(path);
+            if (was_written_to)
+                continue;
+
+            // What was in the file may be found nowhere else any more. Moving it to its backup takes it out of
+            // the way just as well, unless there already is a backup from an earlier patch.
+            if (removal.should_backup)
+                backup.make_backup_for(removal.path);
+            if (!removal.should_backup || filesystem::exists(removal.path))
+                remove_file_and_empty_parent_folders(removal.path);
         }
     }
 
@@ -405,7 +412,12 @@ private:
     };
 
     std::vector<FileWrite> m_deferred_writes;
-    std::vector<std::string> m_deferred_removals;
+    struct FileRemoval {
+        std::string path;
+        bool should_backup;
+    };
+
+    std::vector<FileRemoval> m_deferred_removals;
 };
 
 struct PermissionResult {
@@ -702,7 +714,7 @@ int process_patch(const Options& options)
                 if (write_to_file && patch.operation == Operation::Rename) {
                     // The new file of a git patch has not been written yet, the old one must outlive that.
                     if (patch.format == Format::Git)
-                        deferred_writer.deferred_remove(file_to_patch);
+                        deferred_writer.deferred_remove(file_to_patch, should_backup);
                     else
                         remove_file_and_empty_parent_folders(file_to_patch);
                 }
